@@ -656,6 +656,8 @@ def builtin_method(m, o, name, node):
         tbl = SYMLIST_METHODS
     elif isinstance(o, SDict):
         tbl = DICT_METHODS
+    elif isinstance(o, SADict):
+        tbl = ADICT_METHODS
     elif isinstance(o, SymMap):
         tbl = SYMMAP_METHODS
     elif isinstance(o, (SSet,)):
@@ -941,6 +943,38 @@ def _m_keys(m, o, args, kw, node):
     raise Unsupported("keys() of an unbounded map (no ghost key sequence)", node)
 
 
+def _ad_get(m, o, args, kw, node):
+    default = args[1] if len(args) > 1 else kw.get("default")
+    k = m.force(args[0], node)
+    for kk, vv in zip(o.keys, o.vals):
+        e = m.equal(k, kk, node)
+        if e if isinstance(e, bool) else m.branch(e, node):
+            return vv
+    return default
+
+
+def _ad_pop(m, o, args, kw, node):
+    k = m.force(args[0], node)
+    for i, kk in enumerate(o.keys):
+        e = m.equal(k, kk, node)
+        if e if isinstance(e, bool) else m.branch(e, node):
+            m.note_write(o)
+            del o.keys[i]
+            return o.vals.pop(i)
+    if len(args) > 1:
+        return args[1]
+    raise PyRaise("KeyError", node)
+
+
+ADICT_METHODS = {
+    "get": _ad_get,
+    "pop": _ad_pop,
+    "values": lambda m, o, args, kw, node: SList(list(o.vals)),
+    "keys": lambda m, o, args, kw, node: SList(list(o.keys)),
+    "items": lambda m, o, args, kw, node: SList([(k, v) for k, v in zip(o.keys, o.vals)]),
+    "copy": lambda m, o, args, kw, node: SADict(o.keys, o.vals),
+}
+
 SYMMAP_METHODS = {"get": _m_get, "pop": _m_pop, "copy": _m_copy, "keys": _m_keys}
 
 
@@ -951,14 +985,30 @@ def _s_add(m, o, args, kw, node):
         if x not in o.s:
             o.s.append(x)
         return
+    if isinstance(x, Sym) and o.s:
+        if _s_find(m, o, x, node) is None:
+            raise Unsupported("symbolic element (distinct from all members) added to a concrete set", node)
+        return
     raise Unsupported("symbolic element added to a concrete set (declare the field as SetT)", node)
+
+
+def _s_find(m, o, x, node):
+    """position of x in a concrete set (decided on this path when x is symbolic), else None"""
+    if is_concrete_scalar(x) or isinstance(x, tuple):
+        return o.s.index(x) if x in o.s else None
+    for i, y in enumerate(o.s):
+        e = m.equal(x, y, node)
+        if e if isinstance(e, bool) else m.branch(e, node):
+            return i
+    return None
 
 
 def _s_remove(m, o, args, kw, node):
     m.note_write(o)
     x = m.force(args[0], node)
-    if x in o.s:
-        o.s.remove(x)
+    i = _s_find(m, o, x, node)
+    if i is not None:
+        del o.s[i]
         return
     raise PyRaise("KeyError", node)
 
@@ -966,8 +1016,9 @@ def _s_remove(m, o, args, kw, node):
 def _s_discard(m, o, args, kw, node):
     m.note_write(o)
     x = m.force(args[0], node)
-    if x in o.s:
-        o.s.remove(x)
+    i = _s_find(m, o, x, node)
+    if i is not None:
+        del o.s[i]
 
 
 def _s_union(m, o, args, kw, node):
